@@ -102,6 +102,15 @@ func (s *subscriberServer) CreateSubscription(
 		Labels:          req.Labels,
 		Filter:          req.Filter,
 	}
+	if params.TTL < 0 {
+		return nil, status.Error(codes.InvalidArgument, "expiration_policy.ttl must not be negative")
+	}
+	if params.MessageTTL < 0 {
+		return nil, status.Error(
+			codes.InvalidArgument,
+			"message_retention_duration must not be negative",
+		)
+	}
 	if params.TTL == 0 {
 		params.TTL = defaultSubscriptionTTL
 	}
@@ -113,6 +122,18 @@ func (s *subscriberServer) CreateSubscription(
 		params.MaxBackoff = req.RetryPolicy.MaximumBackoff.AsDuration()
 	}
 	if req.DeadLetterPolicy != nil {
+		if req.DeadLetterPolicy.DeadLetterTopic == "" {
+			return nil, status.Error(
+				codes.InvalidArgument,
+				"dead_letter_policy.dead_letter_topic is required",
+			)
+		}
+		if req.DeadLetterPolicy.MaxDeliveryAttempts < 0 {
+			return nil, status.Error(
+				codes.InvalidArgument,
+				"dead_letter_policy.max_delivery_attempts must not be negative",
+			)
+		}
 		params.MaxDeliveryAttempts = req.DeadLetterPolicy.MaxDeliveryAttempts
 		if params.MaxDeliveryAttempts == 0 {
 			params.MaxDeliveryAttempts = defaultDeadLetterMaxAttempts
@@ -185,6 +206,9 @@ func (s *subscriberServer) UpdateSubscription(
 	ctx context.Context,
 	req *pubsubpb.UpdateSubscriptionRequest,
 ) (*pubsubpb.Subscription, error) {
+	if req.Subscription == nil {
+		return nil, status.Error(codes.InvalidArgument, "Missing subscription")
+	}
 	if !isValidSubscriptionName(req.Subscription.Name) {
 		return nil, status.Errorf(
 			codes.InvalidArgument,
@@ -510,6 +534,10 @@ func (s *subscriberServer) Pull(
 		)
 	}
 
+	if req.MaxMessages < 1 {
+		return nil, status.Error(codes.InvalidArgument, "max_messages must be positive")
+	}
+
 	p := actions.GetSubscriptionMessagesParams{
 		Name:        req.Subscription,
 		MaxMessages: int(req.MaxMessages),
@@ -558,9 +586,13 @@ func (s *subscriberServer) Seek(
 	switch target := req.Target.(type) {
 	case *pubsubpb.SeekRequest_Time:
 		// FUTURE: do we want to bound how far in the future or past the target can be?
+		seekTime := target.Time.AsTime()
+		if seekTime.IsZero() {
+			return nil, status.Error(codes.InvalidArgument, "Invalid SeekRequest.Time")
+		}
 		action := actions.NewSeekSubscriptionToTime(actions.SeekSubscriptionToTimeParams{
 			Name: req.Subscription,
-			Time: target.Time.AsTime(),
+			Time: seekTime,
 		})
 		if err := s.client.DoCtxTxRetry(
 			ctx,
@@ -575,6 +607,13 @@ func (s *subscriberServer) Seek(
 		}
 		return &pubsubpb.SeekResponse{}, nil
 	case *pubsubpb.SeekRequest_Snapshot:
+		if !isValidSnapshotName(target.Snapshot) {
+			return nil, status.Errorf(
+				codes.InvalidArgument,
+				"Unsupported project / snapshot path %s",
+				target.Snapshot,
+			)
+		}
 		action := actions.NewSeekSubscriptionToSnapshot(actions.SeekSubscriptionToSnapshotParams{
 			SubscriptionName: req.Subscription,
 			SnapshotName:     target.Snapshot,
@@ -845,6 +884,10 @@ func (s *subscriberServer) ModifyPushConfig(
 }
 
 func validatePushConfig(cfg *pubsubpb.PushConfig) error {
+	if cfg == nil {
+		// no push config means a pull subscription, nothing to validate
+		return nil
+	}
 	attrs := cfg.GetAttributes()
 	for k, v := range attrs {
 		if k != "x-goog-version" {
